@@ -15,6 +15,12 @@ pub struct GWorld {
     pub fail_first: Vec<bool>,
     pub fail_final: Vec<bool>,
     pub markers: bool,
+    /// directory worlds (scan tasks): file i lives in directory `file_dir[i]`; empty = all in the base directory
+    pub file_dir: Vec<usize>,
+    /// path of directory j relative to the base ("" = base)
+    pub dir_path: Vec<String>,
+    /// symbolic links to directories: (link path relative to base, target directory id)
+    pub links: Vec<(String, usize)>,
 }
 
 impl GWorld {
@@ -32,7 +38,7 @@ impl GWorld {
             .join(",")
     }
     pub fn decode(s: &str) -> Option<GWorld> {
-        let mut w = GWorld { n: 0, deps: vec![], fail_first: vec![], fail_final: vec![], markers: false };
+        let mut w = GWorld { n: 0, deps: vec![], fail_first: vec![], fail_final: vec![], markers: false, file_dir: vec![], dir_path: vec![], links: vec![] };
         for e in s.split(',') {
             let f: Vec<&str> = e.split(':').collect();
             if f.len() != 3 {
@@ -99,10 +105,17 @@ impl GWorld {
         }
         for j in &self.deps[i] {
             // the same file is spelled in different ways by different includers
-            let sp = match (i + j) % 3 {
-                1 => format!("d/../f{j}.txt"),
-                2 => format!("./f{j}.txt"),
-                _ => format!("f{j}.txt"),
+            let sp = if self.file_dir.is_empty() {
+                match (i + j) % 3 {
+                    1 => format!("d/../f{j}.txt"),
+                    2 => format!("./f{j}.txt"),
+                    _ => format!("f{j}.txt"),
+                }
+            } else {
+                let from = self.dir_path[self.file_dir[i]].clone();
+                let to = self.file_rel(*j).replace(".txt.txtpp", ".txt");
+                let mut r = Rng::new((i * 7 + j) as u64);
+                crate::gen::rel_path(&from, &to, &mut r)
             };
             if Self::is_after(i, *j) {
                 s.push_str(&format!("TXTPP#after {sp}\n"));
@@ -126,13 +139,32 @@ impl GWorld {
         s.push_str(&format!("tail{i}\n"));
         s
     }
+    /// path of source i relative to the base
+    pub fn file_rel(&self, i: usize) -> String {
+        if self.file_dir.is_empty() || self.dir_path[self.file_dir[i]].is_empty() {
+            format!("f{i}.txt.txtpp")
+        } else {
+            format!("{}/f{i}.txt.txtpp", self.dir_path[self.file_dir[i]])
+        }
+    }
     pub fn materialize(&self, dir: &Path, stale: bool) {
         let _ = std::fs::remove_dir_all(dir);
-        std::fs::create_dir_all(dir.join("d")).unwrap();
+        std::fs::create_dir_all(dir).unwrap();
+        if self.file_dir.is_empty() {
+            std::fs::create_dir_all(dir.join("d")).unwrap();
+        }
+        for d in &self.dir_path {
+            std::fs::create_dir_all(dir.join(d)).unwrap();
+        }
+        for (l, t) in &self.links {
+            let target = dir.join(&self.dir_path[*t]);
+            let _ = std::os::unix::fs::symlink(&target, dir.join(l));
+        }
         for i in 0..self.n {
-            std::fs::write(dir.join(format!("f{i}.txt.txtpp")), self.source(i)).unwrap();
+            let rel = self.file_rel(i);
+            std::fs::write(dir.join(&rel), self.source(i)).unwrap();
             if stale {
-                std::fs::write(dir.join(format!("f{i}.txt")), format!("head{i}\nSTALE\n")).unwrap();
+                std::fs::write(dir.join(rel.replace(".txt.txtpp", ".txt")), format!("head{i}\nSTALE\n")).unwrap();
             }
         }
     }
@@ -162,9 +194,28 @@ fn idx_of(path: &str) -> Option<usize> {
     name.strip_prefix('f')?.strip_suffix(".txt.txtpp")?.parse().ok()
 }
 
+/// directory id from a displayed directory path: the base itself is shown as an absolute path
+fn dir_idx_of(path: &str) -> usize {
+    if path.starts_with('/') {
+        return 0;
+    }
+    path.rsplit('/').next().and_then(|n| n.strip_prefix('d')).and_then(|n| n.parse().ok()).unwrap_or(99)
+}
+
+pub fn task_key(path: &str, kind: u8) -> (u8, usize, u8) {
+    if kind == 0 {
+        (0, dir_idx_of(path), 0)
+    } else {
+        (1, idx_of(path).unwrap_or(999), kind)
+    }
+}
+
 fn show_task(t: &(String, u8)) -> String {
+    if t.1 == 0 {
+        return format!("{}s", dir_idx_of(&t.0));
+    }
     match idx_of(&t.0) {
-        Some(i) => format!("{}{}", i, if t.1 == 1 { "a" } else if t.1 == 2 { "b" } else { "s" }),
+        Some(i) => format!("{}{}", i, if t.1 == 1 { "a" } else { "b" }),
         None => format!("?{}:{}", t.0, t.1),
     }
 }
@@ -221,11 +272,16 @@ impl Explorer {
 
     /// one controlled run of the real coordinator
     pub fn run_once(&self, w: &GWorld, inputs: &[usize], threads: usize, stale: bool, choices: &[usize]) -> RunObs {
+        self.run_once_ex(w, inputs, &[], false, threads, stale, choices)
+    }
+
+    /// with directory inputs (scan tasks)
+    pub fn run_once_ex(&self, w: &GWorld, inputs: &[usize], dir_inputs: &[usize], recursive: bool, threads: usize, stale: bool, choices: &[usize]) -> RunObs {
         w.materialize(&self.dir, stale);
         let _ = std::fs::remove_file(&self.log);
         std::env::set_var("VERIF_LOG", &self.log);
         std::env::remove_var("TXTPP_FILE");
-        *self.current.lock().unwrap() = case_string(w, inputs, threads, stale, choices);
+        *self.current.lock().unwrap() = format!("{}dirs: {:?} recursive: {} dir_path: {:?} file_dir: {:?} links: {:?}\n", case_string(w, inputs, threads, stale, choices), dir_inputs, recursive, w.dir_path, w.file_dir, w.links);
         let cur = self.current.clone();
         let result_path = self.result_path.clone();
         let replay_dir = self.replay_dir.clone();
@@ -242,7 +298,7 @@ impl Explorer {
             eprintln!("violation[oracle]: run does not terminate ({why})");
             std::process::exit(1);
         });
-        let ctl = Ctl::new(threads, choices.to_vec(), 2 * w.n + 8, on_stuck);
+        let ctl = Ctl::new(threads, choices.to_vec(), 2 * w.n + 2 * w.dir_path.len() + 8, Box::new(task_key), on_stuck);
         // watchdog: a controlled run takes milliseconds; one that does not return at all (e.g. stuck in Drop
         // after the coordinator loop ended) is reported like a hang
         let done_flag = Arc::new(std::sync::atomic::AtomicBool::new(false));
@@ -269,14 +325,23 @@ impl Explorer {
             inputs: inputs
                 .iter()
                 .enumerate()
-                .map(|(k, i)| match (k + i) % 4 {
-                    1 => format!("f{i}.txt"),
-                    2 => format!("d/../f{i}.txt.txtpp"),
-                    3 => format!("./f{i}.txt.txtpp"),
-                    _ => format!("f{i}.txt.txtpp"),
+                .map(|(k, i)| {
+                    if !w.file_dir.is_empty() {
+                        return w.file_rel(*i);
+                    }
+                    match (k + i) % 4 {
+                        1 => format!("f{i}.txt"),
+                        2 => format!("d/../f{i}.txt.txtpp"),
+                        3 => format!("./f{i}.txt.txtpp"),
+                        _ => format!("f{i}.txt.txtpp"),
+                    }
                 })
+                .chain(dir_inputs.iter().enumerate().map(|(k, d)| {
+                    let p = if w.dir_path[*d].is_empty() { ".".to_string() } else { w.dir_path[*d].clone() };
+                    if k % 2 == 1 { format!("./{p}") } else { p }
+                }))
                 .collect(),
-            recursive: false,
+            recursive,
             num_threads: threads,
             mode: Mode::Build,
             verbosity: Verbosity::Quiet,
@@ -298,7 +363,7 @@ impl Explorer {
         let g = ctl.m.lock().unwrap();
         let mut outputs = BTreeMap::new();
         for i in 0..w.n {
-            outputs.insert(i, std::fs::read_to_string(self.dir.join(format!("f{i}.txt"))).ok());
+            outputs.insert(i, std::fs::read_to_string(self.dir.join(w.file_rel(i).replace(".txt.txtpp", ".txt"))).ok());
         }
         let log: Vec<String> = std::fs::read_to_string(&self.log).unwrap_or_default().lines().map(|s| s.to_string()).collect();
         let mut spawn_counts = BTreeMap::new();
@@ -313,6 +378,27 @@ impl Explorer {
             log,
             spawn_counts,
         }
+    }
+
+    pub fn explore_ex(&self, w: &GWorld, inputs: &[usize], dir_inputs: &[usize], recursive: bool, threads: usize, stale: bool, max_runs: usize) -> Vec<(Vec<usize>, RunObs)> {
+        let mut out = vec![];
+        let mut stack: Vec<Vec<usize>> = vec![vec![]];
+        while let Some(prefix) = stack.pop() {
+            if out.len() >= max_runs {
+                break;
+            }
+            let obs = self.run_once_ex(w, inputs, dir_inputs, recursive, threads, stale, &prefix);
+            let taken: Vec<usize> = obs.steps.iter().map(|s| s.choice).collect();
+            for k in prefix.len()..obs.steps.len() {
+                for alt in 1..obs.steps[k].enabled.len() {
+                    let mut p: Vec<usize> = taken[..k].to_vec();
+                    p.push(alt);
+                    stack.push(p);
+                }
+            }
+            out.push((taken, obs));
+        }
+        out
     }
 
     /// all delivery orders (DFS over choice prefixes), at most `max_runs`
@@ -462,7 +548,7 @@ fn jobs_for(property: &str, args: &Args, rng: &mut Rng) -> Vec<Job> {
     let cyclic_ok = property != "C02";
     let with_fail = property == "C04";
     let is_acyclic = |deps: &Vec<Vec<usize>>| {
-        let w = GWorld { n: deps.len(), deps: deps.clone(), fail_first: vec![false; deps.len()], fail_final: vec![false; deps.len()], markers: false };
+        let w = GWorld { n: deps.len(), deps: deps.clone(), fail_first: vec![false; deps.len()], fail_final: vec![false; deps.len()], markers: false, file_dir: vec![], dir_path: vec![], links: vec![] };
         !w.reaches_cycle().iter().any(|x| *x)
     };
     let sizes: Vec<usize> = if thorough || property == "C02" { vec![1, 2, 3, 4] } else { vec![1, 2, 3] };
@@ -505,7 +591,7 @@ fn jobs_for(property: &str, args: &Args, rng: &mut Rng) -> Vec<Job> {
                     }
                     let markers = !with_fail && rng.chance(1, if thorough { 6 } else { 14 });
                     jobs.push(Job {
-                        w: GWorld { n, deps: deps.clone(), fail_first: ff, fail_final: fl, markers },
+                        w: GWorld { n, deps: deps.clone(), fail_first: ff, fail_final: fl, markers, file_dir: vec![], dir_path: vec![], links: vec![] },
                         inputs: inputs.clone(),
                         threads,
                         stale: rng.chance(1, 2),
@@ -584,6 +670,154 @@ pub fn run(args: &Args, property: &str) -> Report {
     }
     rep.distinct = Some(nontrivial);
     rep.exhaustive = rep.dist.get("configurations_capped").is_none();
+    ex.cleanup();
+    rep
+}
+
+/// directory worlds: scan tasks, duplicate directories, symbolic-link loops (C03 / C18 with scanning)
+pub fn run_scan(args: &Args, property: &str) -> Report {
+    let mut rep = Report::new(property, "M6-scan", &args.replay_dir);
+    let model = Model::new(&args.model, &args.work);
+    let mut rng = Rng::new(args.seed.wrapping_mul(104729).wrapping_add(17));
+    rep.rule = "directory worlds: 1-3 directories (base, d1, d1/d2 or d2), 1-3 sources placed in them with random include/after edges (cyclic included), optional directory symbolic links back to an ancestor (loop) or to a sibling (second path to the same directory), inputs = directories (also named twice, with ./) and files, recursive on/off, 16 threads (every in-flight task enabled) x ALL delivery orders of scan and file task results (capped). Trace (enabled set incl. scan tasks, tasks spawned by each delivery, verdict) compared with the Lean coordinator-with-scans model; oracles as for files (verdict, bytes, exactly-once starts, delivery bound). distinct_nontrivial = distinct (world, inputs, order) runs with at least one sub-directory or link.".to_string();
+    let ex = Explorer::new(args, &format!("{}scan", property.to_lowercase()), property);
+    let nworlds = if args.thorough() { 4000 } else { 260 };
+    let mut reqs: Vec<String> = vec![];
+    let mut pend: Vec<(String, RunObs)> = vec![];
+    let mut nontrivial = 0u64;
+    for wi in 0..nworlds {
+        // same worlds in every shard (seeded), each shard takes its share
+        let n = 1 + rng.below(3);
+        let ndirs = 1 + rng.below(3);
+        let mut dir_path = vec![String::new()];
+        if ndirs >= 2 {
+            dir_path.push("d1".to_string());
+        }
+        if ndirs >= 3 {
+            dir_path.push(if rng.chance(1, 2) { "d1/d2".to_string() } else { "d2".to_string() });
+        }
+        let file_dir: Vec<usize> = (0..n).map(|_| rng.below(ndirs)).collect();
+        let mut deps = vec![vec![]; n];
+        for i in 0..n {
+            for j in 0..n {
+                if rng.chance(1, 4) {
+                    deps[i].push(j);
+                }
+            }
+        }
+        let mut links: Vec<(String, usize)> = vec![];
+        if ndirs >= 2 && rng.chance(1, 2) {
+            links.push(("d1/d0".to_string(), 0)); // loop back to the base; named d0 so that its canonical target is directory 0
+        }
+        if ndirs >= 3 && rng.chance(1, 3) {
+            let l = if dir_path[2] == "d2" { "d2/d1" } else { "d1/d2/d1" };
+            links.push((l.to_string(), 1));
+        }
+        let mut ff = vec![false; n];
+        let mut fl = vec![false; n];
+        if rng.chance(1, 5) {
+            let k = rng.below(n);
+            if rng.chance(1, 2) { ff[k] = true } else { fl[k] = true }
+        }
+        let w = GWorld { n, deps, fail_first: ff, fail_final: fl, markers: false, file_dir: file_dir.clone(), dir_path: dir_path.clone(), links: links.clone() };
+        let recursive = rng.chance(2, 3);
+        let mut dir_inputs: Vec<usize> = vec![rng.below(ndirs)];
+        if rng.chance(1, 2) {
+            dir_inputs.push(rng.below(ndirs));
+        }
+        let inputs: Vec<usize> = if rng.chance(1, 3) { vec![rng.below(n)] } else { vec![] };
+        let stale = rng.chance(1, 3);
+        if wi % args.shards.max(1) != args.shard {
+            continue;
+        }
+        // what a scan of each directory reports
+        let subs_of = |d: usize| -> Vec<usize> {
+            if !recursive {
+                return vec![];
+            }
+            let mut v = vec![];
+            for (j, p) in dir_path.iter().enumerate() {
+                if j != d && !p.is_empty() && crate::gen::dir_of(p) == dir_path[d] {
+                    v.push(j);
+                }
+            }
+            for (l, t) in &links {
+                if crate::gen::dir_of(l) == dir_path[d] {
+                    v.push(*t);
+                }
+            }
+            v
+        };
+        let files_of = |d: usize| -> Vec<usize> { (0..n).filter(|i| file_dir[*i] == d).collect() };
+        // files reachable by scanning
+        let mut seen_dirs: Vec<usize> = vec![];
+        let mut stack = dir_inputs.clone();
+        let mut all_inputs = inputs.clone();
+        while let Some(d) = stack.pop() {
+            if seen_dirs.contains(&d) {
+                continue;
+            }
+            seen_dirs.push(d);
+            all_inputs.extend(files_of(d));
+            stack.extend(subs_of(d));
+        }
+        let runs = ex.explore_ex(&w, &inputs, &dir_inputs, recursive, 16, stale, if args.thorough() { 300 } else { 40 });
+        rep.count(&format!("dirs={ndirs}"));
+        rep.count(&format!("links={}", links.len()));
+        rep.countn("orders_explored", runs.len() as u64);
+        let dirworld: String = (0..ndirs)
+            .map(|d| {
+                let f = files_of(d);
+                let sb = subs_of(d);
+                format!(
+                    "{}:{}:f",
+                    if f.is_empty() { "-".to_string() } else { f.iter().map(|x| x.to_string()).collect::<Vec<_>>().join(".") },
+                    if sb.is_empty() { "-".to_string() } else { sb.iter().map(|x| x.to_string()).collect::<Vec<_>>().join(".") }
+                )
+            })
+            .collect::<Vec<_>>()
+            .join(",");
+        for (taken, obs) in runs {
+            rep.evaluations += 1;
+            rep.count(&format!("verdict:{}", obs.verdict));
+            if ndirs > 1 || !links.is_empty() {
+                nontrivial += 1;
+            }
+            let case = format!(
+                "{}dirs: {:?}\nrecursive: {}\ndir_path: {:?}\nfile_dir: {:?}\nlinks: {:?}\n",
+                case_string(&w, &inputs, 16, stale, &taken), dir_inputs, recursive, dir_path, file_dir, links
+            );
+            for failure in oracles(&w, &all_inputs, stale, &obs) {
+                rep.violation("oracle", &format!("{failure}; directory world {} dirs {:?} links {:?} inputs dirs {:?} files {:?} recursive {} order {:?}", w.encode(), dir_path, links, dir_inputs, inputs, recursive, taken), &format!("{case}# {failure}\n# deliveries: {}\n", show_steps(&obs.steps)));
+            }
+            reqs.push(format!(
+                "coordscan {} {} {} {} {}",
+                if inputs.is_empty() { "-".to_string() } else { inputs.iter().map(|i| i.to_string()).collect::<Vec<_>>().join(".") },
+                dir_inputs.iter().map(|i| i.to_string()).collect::<Vec<_>>().join("."),
+                w.encode(),
+                dirworld,
+                if taken.is_empty() { "-".to_string() } else { taken.iter().map(|c| c.to_string()).collect::<Vec<_>>().join(".") }
+            ));
+            pend.push((case, obs));
+        }
+        if rep.samples.len() < 3 {
+            if let Some(l) = pend.last() {
+                rep.sample(format!("dirs {:?} links {:?} files in dirs {:?} graph {} inputs dirs {:?}: {} ; trace {}", dir_path, links, file_dir, w.encode(), dir_inputs, l.1.verdict, show_steps(&l.1.steps)));
+            }
+        }
+    }
+    let resp = model.batch(&reqs);
+    for (r, (case, obs)) in resp.iter().zip(pend.iter()) {
+        let imp = format!("{} {}", obs.verdict, show_steps(&obs.steps));
+        if *r != imp {
+            rep.violation(
+                "divergence",
+                &format!("coordinator trace with directory scans differs from the Lean model: implementation `{imp}`, model `{r}`"),
+                &format!("{case}# correspondence M6-scan; theorems resting on it: C03.exit_iff_idle_with_scans, C03.directories_scanned_once (Coord.sreach_inv)\n# implementation: {imp}\n# model:          {r}\n# the direct oracles passed on this run: no failing input found\n"),
+            );
+        }
+    }
+    rep.distinct = Some(nontrivial);
     ex.cleanup();
     rep
 }
